@@ -523,9 +523,19 @@ func softViol(n int, alloc, bound, fresh uint64, rd *storeReader, c *StoreCase) 
 // decoder sizing something from the input: every nesting level wraps the error
 // of the level below into a new, longer text (fmt.Errorf("... %w")), so a
 // decode that fails d levels deep builds O(d^2) bytes of error text.
+//
+// Recognised by its shape, not by plenc's wording (which a harmless change may
+// alter): a long text in which one 16-byte phrase recurs dozens of times.
 func errorChain(errText string) (levels int, ok bool) {
-	levels = strings.Count(errText, "failed reading field")
-	return levels, levels >= 48 && len(errText) >= 2048
+	if len(errText) < 2048 {
+		return 0, false
+	}
+	for _, at := range []int{len(errText) / 4, len(errText) / 2, 3 * len(errText) / 4} {
+		if n := strings.Count(errText, errText[at:at+16]); n > levels {
+			levels = n
+		}
+	}
+	return levels, levels >= 48
 }
 
 // internNote names the one mechanism in plenc whose allocation depends on
@@ -753,7 +763,7 @@ func storeTypes(cfg world.InstCfg) []string {
 }
 
 var versionSiblings = map[string][]string{
-	"V0": {"V1", "V2"}, "V1": {"V0", "V2"}, "V2": {"V0", "V1", "Wide"},
+	"V0": {"V1", "V2"}, "V1": {"V0", "V2"}, "V2": {"V0", "V1", "Wide"}, "Sparse": {"SparseNew", "V1"}, "SparseNew": {"Sparse", "Wide"},
 	"Wide": {"V2", "Maps"}, "Inner": {"Small", "KeyS"}, "Sym": {"SymTwin", "Inner"}, "SymTwin": {"Sym"},
 	"Maps": {"Wide", "JDoc"}, "JDoc": {"Maps", "V1", "JArr"}, "JArr": {"JDoc", "JNest"}, "JNest": {"JDoc", "Maps"}, "[]any": {"[]string", "map[string]any"}, "map[string]any": {"MapSI", "[]any"}, "Node": {"Tree", "RA"}, "Tree": {"Node"},
 	"MTarget": {"Wide"}, "Nest": {"Wide", "Maps"}, "NestD": {"Nest", "Maps"}, "[][]int": {"[]int", "[]string"}, "map[string][]int": {"MapSI", "Tags"}, "IDs": {"[]int"}, "Tags": {"MapSI"}, "[]null.Int": {"[]int"}, "OnlyMap": {"Tags"}, "RA": {"RB"}, "RB": {"RC"}, "RC": {"RA"}, "Small": {"Inner", "KeyS"},
